@@ -31,6 +31,12 @@ try:
     # time.time / random.* must stay concrete: Whoosh draws a random segment id
     # per writer; with CrossHair's registered contracts those become symbolic.
     REGISTERED_CONTRACTS.clear()
+    # CrossHair "short-circuits" calls to any function that carries a contract (including its own
+    # patched builtins such as repr()/hash()): with some probability the body is skipped and a
+    # symbolic proxy of the return type is returned, reconciled later.  For whole-transaction
+    # harnesses this turned every path inexhaustible (same crash point explored again and again,
+    # "Unable to meet precondition").  The harnesses always want the real body: disable it.
+    _chcore.ShortCircuitingContext.make_interceptor = lambda self, original: original
     HAVE_CH = True
 except Exception:  # pragma: no cover - plain replay interpreter without crosshair
     HAVE_CH = False
@@ -43,11 +49,46 @@ except Exception:  # pragma: no cover - plain replay interpreter without crossha
             return False
 
 
+class _Null(object):
+    def __enter__(self):
+        return self
+
+    def __exit__(self, *a):
+        return False
+
+
+def notrace():
+    """Run a block natively (no CrossHair interception).  Used by whole-transaction harnesses: all data
+    is concrete there, only the points compared inside sym_true() are symbolic."""
+    if HAVE_CH:
+        from crosshair.tracers import is_tracing
+        if is_tracing():
+            return NoTracing()
+    return _Null()
+
+
+def sym_true(fn):
+    """Evaluate a (possibly symbolic) condition thunk to a concrete bool, forking the solver on it.
+    Callable from inside a notrace() block."""
+    if HAVE_CH:
+        from crosshair.tracers import ResumedTracing
+        from crosshair.statespace import optional_context_statespace
+        from crosshair.tracers import is_tracing
+        if optional_context_statespace() is not None and not is_tracing():
+            with ResumedTracing():
+                return True if fn() else False
+    return True if fn() else False
+
+
 def concrete_arrays():
     """Whole-transaction harnesses: CrossHair's SymbolicArray lacks frombytes."""
     if HAVE_CH:
         import array
         _chcore._PATCH_REGISTRATIONS.pop(array.array, None)
+        # CrossHair's hash() patch can hand a SymbolicBoundedInt to a C-level dict lookup of an object
+        # with a Python-level __hash__ (whoosh Segment): "TypeError: __hash__ method should return an
+        # integer".  Whole-transaction harnesses only hash concrete values: use the native hash().
+        _chcore._PATCH_REGISTRATIONS.pop(hash, None)
 
 
 _TICKFILE = os.environ.get("VK_TICKFILE")
